@@ -7,11 +7,19 @@ use serde::{Deserialize, Serialize};
 pub struct Conv {
     pub dec: String,
     pub thou: String,
+    /// expression renderers (model::arith) group every literal whose integer part has more than
+    /// three digits
+    #[serde(default)]
+    pub group: bool,
 }
 
 impl Conv {
     pub fn new(dec: &str, thou: &str) -> Conv {
-        Conv { dec: dec.into(), thou: thou.into() }
+        Conv { dec: dec.into(), thou: thou.into(), group: false }
+    }
+    pub fn grouped(mut self) -> Conv {
+        self.group = true;
+        self
     }
     pub fn default_lib() -> Conv {
         Conv::new(",", ".")
